@@ -985,6 +985,16 @@ def python_traps(rep, prog, qnames, rule="TRAP"):
                 bad += 1
                 rep.bad(rule + ".none-returning", fwhere(f, node), "`%s`: .%s() works in place and returns None - the name on the left is None afterwards" % (
                     norm(node)[:80], node.value.func.attr))
+            if isinstance(node, (ast.If, ast.IfExp, ast.While)):
+                approx = [c for c in ast.walk(node.test) if isinstance(c, ast.Call) and (dotted_of(c.func) or "").split(".")[-1] in ("isclose", "allclose")]
+                if approx:
+                    n += 1
+                    only_raises = isinstance(node, ast.If) and ((node.body and all(isinstance(x, ast.Raise) for x in node.body)) or
+                                                                 (node.orelse and all(isinstance(x, ast.Raise) for x in node.orelse)))
+                    if not only_raises:
+                        bad += 1
+                        rep.bad(rule + ".approx-branch", fwhere(f, node), "`%s` decides which computation runs: inputs that are within the (default: rtol 1e-5, atol 1e-8) tolerance "
+                                "but not equal - a variance of 1e-9, data with a large offset - silently take the special case" % norm(approx[0])[:70])
             if isinstance(node, ast.Compare):
                 for op, c in zip(node.ops, node.comparators):
                     if isinstance(op, (ast.Is, ast.IsNot)):
